@@ -296,6 +296,12 @@ fn try_exchange_jobs_in_routes(
     let search_ctx: SearchContext = (insertion_ctx, leg_selection, result_selector);
     let (outer_idx, inner_idx) = route_pair;
 
+    // NOTE: route pairs are created upfront, but a route can be removed once it has no jobs left
+    // (e.g. after its last job was exchanged and the remaining optional break was unassigned)
+    if outer_idx.max(inner_idx) >= insertion_ctx.solution.routes.len() {
+        return is_quota_reached();
+    }
+
     let outer_route_ctx = get_route_by_idx(insertion_ctx, outer_idx);
     let inner_route_ctx = get_route_by_idx(insertion_ctx, inner_idx);
 
